@@ -283,3 +283,81 @@ class CFG:
     def find(self, pred):
         """CFG node ids whose owning ast (statement / test / for-header) satisfies pred(desc)."""
         return [i for i, d in enumerate(self.nodes) if pred(d)]
+
+    # ------------------------------------------------------------ loop-carried variables
+    def _uses_defs(self, nid):
+        d = self.nodes[nid]
+        kind = d[0]
+        uses, defs = set(), set()
+
+        def collect(node, into_uses=True, into_defs=True):
+            for x in ast.walk(node):
+                if isinstance(x, ast.Name):
+                    if isinstance(x.ctx, ast.Load) and into_uses:
+                        uses.add(x.id)
+                    elif isinstance(x.ctx, (ast.Store, ast.Del)) and into_defs:
+                        defs.add(x.id)
+        if kind == 'stmt':
+            s = d[1]
+            if isinstance(s, (ast.FunctionDef, ast.AsyncFunctionDef, ast.ClassDef)):
+                defs.add(s.name)
+            elif isinstance(s, ast.AugAssign):
+                collect(s)
+                if isinstance(s.target, ast.Name):
+                    uses.add(s.target.id)
+            else:
+                collect(s)
+        elif kind == 'test':
+            collect(d[1])
+        elif kind == 'for':
+            collect(d[1].iter)
+            collect(d[1].target)
+        elif kind == 'with':
+            for it in d[1].items:
+                collect(it.context_expr)
+                if it.optional_vars is not None:
+                    collect(it.optional_vars)
+        elif kind == 'handler':
+            if d[1].name:
+                defs.add(d[1].name)
+        return uses, defs
+
+    def carried_into(self, loop):
+        """Names that an iteration of `loop` may read before writing them: their value comes from the previous iteration
+        (or from before the loop). Only names that the loop also writes are returned."""
+        head = next((i for i, d in enumerate(self.nodes) if d[0] == 'for' and d[1] is loop), None)
+        if head is None:
+            return None
+        start = next((s for s in self.succ[head] if self.nodes[s][0] == 'edge' and self.nodes[s][2] is True), None)
+        if start is None:
+            return None
+        # nodes of the loop body
+        body = set()
+        stack = [start]
+        while stack:
+            n = stack.pop()
+            if n in body or n in (head, self.exit, self.raise_exit):
+                continue
+            body.add(n)
+            stack.extend(self.succ[n])
+        written = set()
+        ud = {n: self._uses_defs(n) for n in body}
+        for n in body:
+            written |= ud[n][1]
+        target = {x.id for x in ast.walk(loop.target) if isinstance(x, ast.Name)}
+        out = set()
+        for name in written - target:
+            seen, stack = set(), [start]
+            while stack:
+                n = stack.pop()
+                if n in seen or n not in body:
+                    continue
+                seen.add(n)
+                u, df = ud[n]
+                if name in u:
+                    out.add(name)
+                    break
+                if name in df:
+                    continue
+                stack.extend(self.succ[n])
+        return out
